@@ -212,6 +212,13 @@ def handle (st : St) (args : List String) (impl : String) : St × Verdict :=
     | _, _, _ => (st, .unknown)
   -- two coinbase outputs and kernels: both in the full vectors, ids = the transaction kernels
   | ["cbtwo", nk] => (st, cmpModel s!"2 2 {nk} true true" impl)
+  -- run `zeroout` (child processes): VALID bodies without outputs / without transactions validate
+  -- under every weighting (rule-fixed); the empty transaction passes the gates and fails in the sums
+  -- (`commit_sum` of nothing)
+  | ["zval", name, what, _, _, _] =>
+    if name.startsWith "valid-" then (st, cmpSpec "ok" impl)
+    else if name == "empty-tx" then (st, cmpModel (if what == "validate_read" then "ok" else "err:Secp") impl)
+    else (st, .unknown)
   | ["def", _, i, off, v, ins, outs, kers] =>
     match nat? i, parseHex off, parseNatList ins, parseNatList outs, parseNatList kers with
     | some i, some off, some ins, some outs, some kers =>
